@@ -154,18 +154,18 @@ theorem mem_rrsetOf (coll : List RR) (k : GKey) (x : RR) : x ∈ rrsetOf coll k 
 /-- what a matching signature says about the RRset key it was checked against. -/
 theorem sigMatches_key {s : Sig} {coll : List RR} {k : GKey} (h : sigMatchesRRset s (rrsetOf coll k) = true) :
     s.owner = k.1 ∧ s.covered = k.2.1 ∧ s.cls = k.2.2 ∧ s.labels ≤ k.1.length ∧ nameInZone k.1 s.signer = true ∧
-      isRRset (rrsetOf coll k) = true := by
+      isRRset (rrsetOf coll k) = true ∧ expandedDenial s k.1 = false := by
   unfold sigMatchesRRset at h
   split at h
   · cases h
   · rename_i hd tl heq
     have hmem : hd ∈ rrsetOf coll k := by rw [heq]; simp
     have hk := ((mem_rrsetOf coll k hd).mp hmem).2
-    simp only [Bool.and_eq_true, beq_iff_eq, decide_eq_true_eq, and_assoc] at h
-    obtain ⟨h0, h1, h2, h3, h4, h5⟩ := h
+    simp only [Bool.and_eq_true, beq_iff_eq, decide_eq_true_eq, and_assoc, Bool.not_eq_true'] at h
+    obtain ⟨hx, h0, h1, h2, h3, h4, h5⟩ := h
     unfold keyOf at hk
     subst hk
-    exact ⟨h4.symm, h2.symm, h1.symm, h3, h5, heq ▸ h0⟩
+    exact ⟨h4.symm, h2.symm, h1.symm, h3, h5, heq ▸ h0, hx⟩
 
 /-! ### DS -/
 
